@@ -55,6 +55,9 @@ def shard(ctx):
 
     prof = StreamProfile(knobs_fn=knobs, script_len=ctx.params["script_len"], templates=any_template)
     prof.template_prob = 0.3
+    from ..templates import ALL as _ALL
+
+    prof.rotation = list(_ALL)
     run_stream(ctx, prof, [EquivMonitor(ctx, ninputs=ctx.params["ninputs"])])
 
 
